@@ -28,6 +28,16 @@ def judge(ctx, status: str) -> list[dict]:
         vs.append({"rule": f"C08/{rule}", "message": msg, "signature": sig})
 
     ref_paths = set(getattr(u, "ref_paths", []) or [])
+    mal = desc.get("malformed")
+    judge_damage = bool(mal)
+    concurrent = (int(cfg.get("callers", 1)) >= 2) if ctx.desc["sub"] == "callers" else (int(cfg.get("workers", 1)) >= 2)
+    if mal and concurrent and ctx.desc["sub"] == "callers":
+        # concurrent look-ups on one schema object are already known to corrupt the resolver (KF-C08-resolver-not-thread-safe-*):
+        # what a damaged entry adds cannot be told apart from that there, so the damaged-entry rules are judged on
+        # single-caller histories and on engine runs (whose iteration is serialised by the producer lock) only
+        judge_damage = False
+    mal_key = mal["op"] if mal else None
+    mal_kind = mal["kind"] if mal else None
     if ctx.desc["sub"] == "callers":
         st = ctx.extra.get("c08") or {}
         if st.get("load_error"):
@@ -38,7 +48,11 @@ def judge(ctx, status: str) -> list[dict]:
             if fault and what in ("lookup_raised", "statistic_total"):
                 continue  # a look-up that needs the broken file may legitimately raise / count fewer operations
             rule = "R2" if what in ("wrong_operation", "lookup_disagrees", "lookup_not_same_object") else "R1"
-            v(rule, msg, what=what, how=how.split(" ")[0], iteration_began_before=suspended)
+            if judge_damage and what == "lookup_raised" and how.split(" ")[0] == "iter":
+                # the traversal itself raised in a universe with a damaged entry (look-ups of the damaged operation are not made)
+                v(rule, msg, what=what, how="iter", iteration_began_before=suspended, malformed_entry=mal_kind)
+            else:
+                v(rule, msg, what=what, how=how.split(" ")[0], iteration_began_before=suspended)
         seen = st.get("seen_iter") or []
         counts = Counter(k for _, k in seen)
         oks = {k for kind, k in seen if kind == "ok"}
@@ -46,6 +60,18 @@ def judge(ctx, status: str) -> list[dict]:
         for key, op in u.ops.items():
             on_ref = op.path in ref_paths
             reported_err = any(e.endswith(" " + op.path) for e in errs)
+            if key == mal_key:
+                if not judge_damage:
+                    continue
+                if key in oks:
+                    v("R3", f"{key} is damaged ({mal_kind}) but was offered for testing without any error", what="damaged_operation_offered", malformed_entry=mal_kind)
+                elif not reported_err:
+                    v("R3", f"{key} is damaged ({mal_kind}) and was neither offered nor reported as a schema error naming its path", what="damaged_operation_dropped", malformed_entry=mal_kind)
+                continue
+            if judge_damage and key not in oks and not reported_err:
+                v("R3", f"{key} is well-formed but was not offered: the damaged operation {mal_key} ({mal_kind}) took it down with it", what="operation_dropped_with_damaged_one",
+                  malformed_entry=mal_kind)
+                continue
             if key not in oks and not reported_err:
                 v("R3", f"{key} was neither offered by get_all_operations() nor reported as a schema error naming its path", what="operation_dropped", behind_ref=on_ref,
                   iteration_began_before=bool(st.get("iter_was_suspended")))
@@ -57,13 +83,18 @@ def judge(ctx, status: str) -> list[dict]:
                 v("R3", f"{key} lives in the unreachable file {fault['file']} but was offered for testing", what="broken_operation_offered")
         if not fault:
             for e in errs:
+                if mal_key is not None and e.endswith(" " + u.ops[mal_key].path):
+                    continue
                 v("R3", f"get_all_operations() reported an error for {e} although the document is well-formed", what="spurious_error",
                   iteration_began_before=bool(st.get("iter_was_suspended")))
         return vs
     # ---- whole run: markers on the wire, every operation offered or reported --------------------------------
     if ctx.loop_exception is not None:
         if not fault:
-            v("R3", f"run aborted: {type(ctx.loop_exception).__name__}: {str(ctx.loop_exception)[:200]}", what="run_aborted")
+            if mal:
+                v("R3", f"run aborted: {type(ctx.loop_exception).__name__}: {str(ctx.loop_exception)[:200]}", what="run_aborted", malformed_entry=mal_kind)
+            else:
+                v("R3", f"run aborted: {type(ctx.loop_exception).__name__}: {str(ctx.loop_exception)[:200]}", what="run_aborted")
         return vs
     delivered = [e for _, e in ctx.delivered]
     for r in ctx.netlog:
@@ -97,6 +128,16 @@ def judge(ctx, status: str) -> list[dict]:
         labels = Counter(e.label for e in started if e.phase.value == ph_val)
         for key, op in u.ops.items():
             named = any(e.phase.value == ph_val and (e.label == key or op.path in str(e.label)) for e in errors)
+            if key == mal_key:
+                if labels.get(key, 0) > 0 and not named:
+                    v("R3", f"{key} is damaged ({mal_kind}) but was tested in phase {ph_key} without any error", what="damaged_operation_offered", malformed_entry=mal_kind)
+                elif labels.get(key, 0) == 0 and not named:
+                    v("R3", f"{key} is damaged ({mal_kind}) and was neither tested nor reported in phase {ph_key}", what="damaged_operation_dropped", malformed_entry=mal_kind)
+                continue
+            if mal and labels.get(key, 0) == 0:
+                v("R3", f"{key} is well-formed but was not offered in phase {ph_key}: the damaged operation {mal_key} ({mal_kind}) took it down with it",
+                  what="operation_dropped_with_damaged_one", malformed_entry=mal_kind)
+                continue
             if labels.get(key, 0) == 0 and not named:
                 v("R3", f"{key} was neither offered in phase {ph_key} nor reported as an error naming its path", what="operation_dropped", behind_ref=op.path in ref_paths)
             elif labels.get(key, 0) > 1:
